@@ -927,7 +927,7 @@ static bool g_expect_unsolvable = false; // set by generators that build problem
     Problem p;
     Gen g{t, o, p};
     std::string layer = o.get("layer", "L0");
-    if (P == "C16" && layer != "evalp") layer = "eval";
+    if (P == "C16" && layer != "evalp" && layer != "L1m") layer = "eval";
     if (P == "C17" && layer != "L1b") layer = "L1";
     if (((P == "C04" && layer != "L3d") || P == "C05" || (P == "C06" && layer != "L3b") || P == "C19")) layer = "L3";
     if (P == "C03" && layer != "L2p" && layer != "L2c") layer = "L2";
@@ -937,6 +937,7 @@ static bool g_expect_unsolvable = false; // set by generators that build problem
     Shared sh;
     Temporal tmp;
     Fields flds;
+    Methods mths;
     std::vector<std::string> c03, c19;
     std::ostringstream xlog;
     g_c03_struct.clear();
@@ -960,6 +961,10 @@ static bool g_expect_unsolvable = false; // set by generators that build problem
     else if (layer == "L1b")
     {
       gen_fields(g, flds);
+    }
+    else if (layer == "L1m")
+    {
+      gen_methods(g, mths);
     }
     else if (layer == "L3d")
     {
@@ -1128,6 +1133,7 @@ static bool g_expect_unsolvable = false; // set by generators that build problem
       if (layer == "L3" || layer == "L3d") check_timelines(p, tl, out, c04, c05, c06, c01, r);
       if (g_expect_unsolvable) c04.push_back("a problem in which every alternative overlaps a pinned fact on its state variable was reported solved");
       if (layer == "L1b") check_fields(flds, out, c17, r);
+      if (layer == "L1m") check_methods(mths, out, c16, r);
       if (layer == "L2p") check_shared(sh, out, c01, c03, r);
       if (layer == "L3b") check_temporal(tmp, g_plan, c01, c06, r);
     }
@@ -1228,6 +1234,7 @@ static bool g_expect_unsolvable = false; // set by generators that build problem
     else if ((P == "C01" || P == "C06") && (layer == "L3" || layer == "L2p" || layer == "L3b")) r.nontrivial = out.verdict == SOLVED && r.nontrivial;
     else if (P == "C01") r.nontrivial = out.verdict == SOLVED && (evaluated_mixed || p.feats.count("arithmetic disequality") || p.feats.count("disjunction statement") || !p.objvars.empty());
     else if (P == "C02") r.nontrivial = out.verdict == UNSOLVABLE || p.planted;
+    else if (P == "C16" && layer == "L1m") r.nontrivial = out.verdict == SOLVED;
     else if (P == "C16") r.nontrivial = out.verdict == SOLVED && (!p.expect_path.empty() || p.feats.count("product with a non-constant factor") || p.feats.count("unary minus") || p.feats.count("division") || p.feats.count("boolean constant expression"));
     else if (P == "C17" && layer == "L1b") { /* set by check_fields */ }
     else if (P == "C17") r.nontrivial = nontrivial_objects(p, out);
